@@ -19,7 +19,7 @@ ERRNOS = {
     'mkdir': ['EACCES', 'EPERM', 'EROFS', 'ENOSPC', 'EIO', 'ENAMETOOLONG', 'EEXIST', 'ENOENT', 'ENOTDIR'],
     'open': ['EACCES', 'EROFS', 'ENOSPC', 'EIO', 'ENAMETOOLONG', 'EEXIST', 'ENOENT'],
     'fopen': ['EACCES', 'EIO', 'ENOSPC', 'EROFS'],
-    'write': ['ENOSPC', 'EIO'], 'close': ['EIO'], 'fstat': ['EIO'],
+    'write': ['ENOSPC', 'EIO'], 'close': ['EIO'], 'fstat': ['EIO'], 'fchmod': ['EPERM', 'EIO'],
     'rename': ['EACCES', 'EPERM', 'EROFS', 'ENOSPC', 'EIO', 'ENAMETOOLONG', 'ENOENT', 'EXDEV'],
     'unlink': ['EACCES', 'EPERM', 'EROFS', 'EIO', 'ENOENT'], 'remove': ['EACCES', 'EPERM', 'EROFS', 'EIO', 'ENOENT'],
     'rmdir': ['EACCES', 'EROFS', 'EIO', 'ENOTEMPTY'],
